@@ -107,7 +107,8 @@ Theorem C09_axis_step_refuses_iff : forall tol g u s,
   axis_step tol g u s = Err RT <->
   find_axis tol g u = None \/
   exists j, find_axis tol g u = Some j /\
-            (tol < Qabs' (s / sel (g_spac g) j - inject_Z (rne (s / sel (g_spac g) j))))%Q.
+            (rne (s / sel (g_spac g) j) = 0 \/
+             (tol < Qabs' (s / sel (g_spac g) j - inject_Z (rne (s / sel (g_spac g) j))))%Q).
 Proof. exact axis_step_refuses_iff. Qed.
 Print Assumptions C09_axis_step_refuses_iff.
 
@@ -353,13 +354,27 @@ Example C09_match_sound_example :
 Proof. exact match_sound_example. Qed.
 Print Assumptions C09_match_sound_example.
 
-(* 14. "... or refuses": REFUTED as to the exception class - a stride that rounds to 0 is not refused with
-       RuntimeError but fails later with ValueError (finding reported; replayed on the real code) *)
-Theorem C09_refusal_class_refuted :
-  exists g h, orthonormal g /\ orthonormal h /\ spac_pos g /\ spac_pos h /\ gpos (g_shape g) /\ gpos (g_shape h) /\
-    match_geometry (1 # 100000) g h = Err VE.
-Proof. exact refusal_class_refuted. Qed.
-Print Assumptions C09_refusal_class_refuted.
+(* 14. "... or refuses": every refusal between orthonormal geometries is the documented RuntimeError
+       (FULL; before fix D104 this was refuted: a stride rounding to 0 escaped as ValueError) *)
+Theorem C09_match_refusal_is_runtime_error : forall tol g h e, (0 <= tol)%Q -> (7 * tol < 1)%Q ->
+  orthonormal g -> orthonormal h -> gpos (g_shape g) -> gpos (g_shape h) ->
+  match_geometry tol g h = Err e -> e = RT.
+Proof. exact match_refusal_is_runtime_error. Qed.
+Print Assumptions C09_match_refusal_is_runtime_error.
+
+(* without orthonormality of the target the only other outcome is ValueError for two target axes that
+   align with the same source axis (permute_spatial_axes rejects the non-permutation) *)
+Theorem C09_match_refusal_class : forall tol g h e, gpos (g_shape g) -> gpos (g_shape h) ->
+  match_geometry tol g h = Err e ->
+  e = RT \/ (e = VE /\ exists sg k, steps_of tol g h = Ok (sg, k) /\ is_perm (p0 sg) (p1 sg) (p2 sg) = false).
+Proof. exact match_refusal_class. Qed.
+Print Assumptions C09_match_refusal_class.
+
+Example C09_zero_stride_now_refused :
+  orthonormal zs_src /\ orthonormal zs_tgt /\ gpos (g_shape zs_src) /\ gpos (g_shape zs_tgt) /\
+  match_geometry (1 # 100000) zs_src zs_tgt = Err RT.
+Proof. exact zero_stride_now_refused. Qed.
+Print Assumptions C09_zero_stride_now_refused.
 
 (* 15. pad options of match_geometry (mode, constant_value): same geometry pipeline ... *)
 Theorem C09_match_rs_refines : forall tol g h,
